@@ -27,5 +27,6 @@ for d in seeded/*/; do
   v=$(grep -m1 "^VIOLATION" /tmp/.regress.log | sed 's|/verif/evidence/replays/||' | cut -c1-150)
   echo "| $id | $prop | $rc | $e | $v |" >> $OUT.tmp
   echo "$id $prop exit=$rc ${e}s"
+  cp $OUT.tmp $OUT          # keep what has been re-run so far (a long run may be interrupted)
 done
 mv $OUT.tmp $OUT
